@@ -63,7 +63,14 @@ def firstMismatch (g : Graph) : List SPage → List String → Nat → Option St
   | [], [], _ => none
   | p :: ps, q :: qs, i =>
     if specShow g p q = q then firstMismatch g ps qs (i + 1)
-    else some s!"page-{i}-expected({specShow g p q})"
+    else
+      -- does the answer match a reading that ignores indirect MediaBox / CropBox / Rotate values?
+      let pU : SPage := { p with mb := p.mbU, cb := p.cbU, rot := p.rotU }
+      if p.viaRef && specShow g pU q = q then
+        (match firstMismatch g ps qs (i + 1) with
+         | none => some s!"indirect-attribute-value-ignored page-{i}"
+         | some m => if hasPrefix m "indirect-attribute-value-ignored" then some m else some m)
+      else some s!"page-{i}-expected({specShow g p q})"
   | _, _, i => some s!"page-list-length-at-{i}"
 
 def oracle (r : Req) (impl : String) : String :=
@@ -106,7 +113,80 @@ def oracle (r : Req) (impl : String) : String :=
       else if ids.length > n then "fail:more-pages-than-objects"
       else "ok"
 
+/-! ### `big <n> <fan>`: regular two-level trees around the MAX_PAGES cap -/
+
+def bigGraph (n fan : Nat) : Graph × Dict :=
+  let ninner := (n + fan - 1) / fan
+  let letter : Raw := .nums [some 0, some 0, some 1224, some 1584]
+  let root : Dict := { ty := .pages, kids := .direct ((List.range ninner).map fun j => .ref (3 + j)),
+                       count := some (.int (Int.ofNat n)), mb := some letter }
+  let innerDict (j : Nat) : Dict :=
+    { ty := .pages
+      parent := some 2
+      kids := .direct (((List.range n).filter fun i => j * fan ≤ i ∧ i < (j + 1) * fan).map fun i => Elem.ref (3 + ninner + i))
+      count := some (.int (Int.ofNat (min ((j + 1) * fan) n - j * fan)))
+      rot := some (.int (Int.ofNat ((j % 4) * 90))) }
+  let inner := (List.range ninner).map fun j => (3 + j, Obj.dict (innerDict j))
+  let leaves := (List.range n).map fun i => (3 + ninner + i, Obj.dict { ty := .page, parent := some (3 + i / fan) })
+  ((2, .dict root) :: inner ++ leaves, root)
+
+def bigProbes (fan dc : Nat) : List Nat :=
+  ([0, fan - 1, fan, dc - 1].filter (· < dc)).eraseDups
+
+def showProbe (i : Nat) : PageRes → String
+  | .ok p => s!"{i}:{p.id} m={showInts p.mediaBox} c={if p.cropBox.isSome then "some" else "-"} r={p.rotation} z={if p.resources.isSome then "some" else "none"}"
+  | .err => s!"{i}:E"
+  | .fuel => s!"{i}:FUEL"
+
+/-- the generic model run on the generated graph (small n only: the list-based model is quadratic) -/
+def bigModel (n fan : Nat) : String :=
+  let (g, root) := bigGraph n fan
+  match flatten g root with
+  | none => "dc=FUEL"
+  | some flat =>
+    let probes := (bigProbes fan flat.length).map fun i => " | " ++ showProbe i (getPage g flat i)
+    s!"rc={readerPageCount g root} dc={flat.length}" ++ String.join probes ++
+      (if flat.isEmpty then "" else " | oob=" ++ showPageRes (getPage g flat flat.length))
+
+/-- closed form = `C18_flatten_document_order_truncated` (flat index = leaves in document order,
+cut at MAX_PAGES) + `C18_inherit_nearest` instantiated for this tree shape -/
+def bigFormula (n fan : Nat) : String :=
+  let ninner := (n + fan - 1) / fan
+  let dc := min n MAX_PAGES
+  let rc := if n ≤ MAX_PAGE_COUNT then n else ninner
+  let probes := (bigProbes fan dc).map fun i =>
+    s!" | {i}:{3 + ninner + i} m=0,0,1224,1584 c=- r={((i / fan) % 4) * 90} z=none"
+  s!"rc={rc} dc={dc}" ++ String.join probes ++ (if dc = 0 then "" else " | oob=E")
+
+def handleBig (n fan : Nat) (impl : String) : String × String :=
+  let formula := bigFormula n fan
+  let model := if n ≤ 1500 then (let m := bigModel n fan; if m = formula then m else "FORMULA-MISMATCH " ++ m) else formula
+  -- spec side: document order is leaf i = object 3+#inner+i with the root's MediaBox and the
+  -- inner node's Rotate; a list cut at the cap is accepted ("a truncated list"), the reader's
+  -- count must be the number of leaves
+  let ninner := (n + fan - 1) / fan
+  let expectPages := (formula.splitOn " | ").drop 1
+  let implPages := (impl.splitOn " | ").drop 1
+  let oracle :=
+    if hasPrefix impl "panic" || hasPrefix impl "abort" || hasPrefix impl "timeout" then "fail:no-answer"
+    else if implPages != expectPages then "fail:big-tree-pages-differ-from-document-order"
+    else match (impl.splitOn " | ").head?.map (·.splitOn " ") with
+      | some [rc, dc] =>
+        if dc != s!"dc={min n MAX_PAGES}" then s!"fail:page-count-{dc}-but-document-order-has-{n}"
+        else if rc != s!"rc={n}" then
+          (if n ≤ MAX_PAGE_COUNT then s!"fail:reader-page-count-{rc}-with-correct-Count-{n}"
+           else s!"fail:reader-page-count-not-from-traversal got={dropStr 3 rc} kids={ninner} pages={n}")
+        else "ok"
+      | _ => "fail:unparsable-impl-answer"
+  (model, oracle)
+
 def handle (req impl : String) : String × String :=
+  match req.splitOn " " with
+  | ["big", n, fan] =>
+    match n.toNat?, fan.toNat? with
+    | some n, some fan => if fan = 0 then ("bad-request", "na") else handleBig n fan impl
+    | _, _ => ("bad-request", "na")
+  | _ =>
   match parseReq req with
   | none => ("bad-request", "na")
   | some r => (modelAnswer r, oracle r impl)
